@@ -410,6 +410,14 @@ class Brushes(Family):
         a = copy.deepcopy(w)
         a['brushes'][1]['sides'] = copy.deepcopy(a['brushes'][0]['sides'][:2])   # equal but distinct sides
         out.append(('dup_sides', a))
+        if layout != 'vitamin':
+            for bits in (2, 0x8000, 0xFFFE):       # bevel flag AND extra bits of the same field set together
+                a = copy.deepcopy(w)
+                for sd in a['brushes'][0]['sides']:
+                    sd['bevel'] = True
+                    sd['bits'] = bits
+                a['brushes'][1]['sides'][0].update(bevel=False, bits=bits)
+                out.append((f'bevel_with_bits_{bits:x}', a))
         return out
 
     def overflow_extra(self, layout, world, i):
@@ -576,7 +584,8 @@ class BModels(Family):
         a['bmodels'][2] = copy.deepcopy(a['bmodels'][1])       # two entities sharing one brush model
         out.append(('shared_model', a))
         a = copy.deepcopy(w)
-        a['bmodels'][1]['phys_kv'] = [['solid', [['index', '0'], ['name', 'a b'], ['sub', [['x', '1']]]]], ['editparams', [['rootname', '']]]]
+        a['bmodels'][1]['phys_kv'] = [['solid', [['index', '0'], ['name', 'a b'], ['sub', [['x', '1']]]]], ['editparams', [['rootname', '']]],
+                                      ['solid', [['surfaceprop', 'custom\\metal'], ['tab\there', 'say "x"'], ['multi', 'l1\nl2']]]]
         a['bmodels'][1]['solids'] = ['00', '', 'ff' * 40]
         out.append(('physics_on_entity', a))
         a = copy.deepcopy(w)
